@@ -167,6 +167,13 @@ def generate(rng):
         else:
             scn['eintr'] = sorted([rng.randint(1, 6), max(1, int(hz * rng.choice([0.001, 0.1, 0.5, 0.9, 0.999])))]
                                   for _ in range(rng.randint(1, 3)))
+    if tr in ('pty', 'fd', 'sock') and entry != 'waitnoecho' and rng.random() < 0.03:
+        # "practically for ever" spelled as a number (a month, three decades): the answer arrives soon and must be reported then;
+        # the number itself must not be a problem for whatever the transport waits with
+        scn['T'] = T = rng.choice([2.2e6, 3000000, 1e7, 1e9, 10 ** 9])
+        scn['peer_kind'] = 'late_match'
+        scn['peer'] = [{'op': 'w', 'd': 'zz' + TOKEN, 'dt': rng.choice([1000, 200000, 5000000])}, {'op': 'pause'}]
+        scn.pop('eintr', None)
     scn['vt_cap_s'] = 400000
     scn['step_cap'] = 250000
     if scn.get('use_poll') and scn.get('transport') in ('pty', 'fd') and rng.random() < 0.3:
@@ -222,6 +229,10 @@ def _ops(scn):
 def run(scn):
     if scn.get('maxread', 1) < 1 or scn.get('size', 1) < 1:
         raise HarnessError('degenerate read size')
+    T_ = scn.get('T')
+    if isinstance(T_, (int, float)) and T_ > 200000 and not any(st.get('op') in ('w', 'exit', 'close') for st in scn.get('peer', [])):
+        # a timeout of months is generated only together with an answer that arrives soon: waiting it out is not what is judged
+        raise HarnessError('a very large timeout needs a peer that answers')
 
     def body(r):
         sc = dict(scn)
